@@ -662,7 +662,7 @@ func (x *Exec) applyContract(cs *callSite, callee *ssa.Function, c *FuncContract
 	if c.Opts["trusted"] == "true" && strings.Contains(c.Opts["modifies"], "ext") {
 		x.havocExternal(cs, "call")
 	} else {
-		x.havocMods(cs.fr, st, mods, "call")
+		x.havocMods(cs.fr, st, mods, "call", cs.args...)
 	}
 	if c.Opts["writes"] == "fresh" {
 		// proved on the callee (fresh-write obligations): objects that exist
@@ -758,10 +758,13 @@ type modSet struct {
 	cellTypes map[string]types.Type
 	ghost     map[string]bool
 	alloc     bool
+	// stores through a pointer parameter of the function itself (field paths
+	// only): the object the argument points to, not the whole heap of its type
+	params map[int]types.Type
 }
 
 func newModSet() *modSet {
-	return &modSet{heaps: map[string]bool{}, cells: map[string]bool{}, cellTypes: map[string]types.Type{}, ghost: map[string]bool{}}
+	return &modSet{heaps: map[string]bool{}, cells: map[string]bool{}, cellTypes: map[string]types.Type{}, ghost: map[string]bool{}, params: map[int]types.Type{}}
 }
 
 func (m *modSet) union(o *modSet, withCells bool) {
@@ -816,6 +819,9 @@ func (x *Exec) funcMods(fn *ssa.Function) *modSet {
 	}
 	full := x.modsOfBlocksFn(fn, blocks)
 	m.union(full, false)
+	for k, t := range full.params {
+		m.params[k] = t
+	}
 	return m
 }
 
@@ -907,6 +913,18 @@ func (x *Exec) modOfAddr(m *modSet, addr ssa.Value) {
 		}
 	case *ssa.Global:
 		// globals are cells of frame 0; writes to them are not tracked across calls
+	case *ssa.Parameter:
+		if pt, ok := a.Type().Underlying().(*types.Pointer); ok && a.Parent() != nil {
+			for k, q := range a.Parent().Params {
+				if q == a {
+					m.params[k] = pt.Elem()
+					return
+				}
+			}
+		}
+		if pt, ok := addr.Type().Underlying().(*types.Pointer); ok {
+			m.heaps[x.heapName(pt.Elem())] = true
+		}
 	default:
 		if pt, ok := addr.Type().Underlying().(*types.Pointer); ok {
 			m.heaps[x.heapName(pt.Elem())] = true
@@ -991,7 +1009,7 @@ func (x *Exec) modOfCall(m *modSet, cc *ssa.CallCommon) {
 		if c := x.w.contractOf(callee); c != nil && c.Opts["conn"] != "" {
 			// the callee acts on the database view behind one connection argument
 			sub := newModSet()
-			x.modOfFunc(sub, callee)
+			x.modOfFunc(sub, callee, cc.Args...)
 			for i, p := range callee.Params {
 				if p.Name() == c.Opts["conn"] && i < len(cc.Args) {
 					restrictView(sub, connKind(cc.Args[i]))
@@ -1000,9 +1018,9 @@ func (x *Exec) modOfCall(m *modSet, cc *ssa.CallCommon) {
 			m.union(sub, false)
 			return
 		}
-		x.modOfFunc(m, callee)
+		x.modOfFunc(m, callee, cc.Args...)
 	case *ssa.MakeClosure:
-		x.modOfFunc(m, callee.Fn.(*ssa.Function))
+		x.modOfFunc(m, callee.Fn.(*ssa.Function), cc.Args...)
 	default:
 		// dynamic
 		if isContextCancel(cc.Value) {
@@ -1022,7 +1040,7 @@ func (x *Exec) modOfCall(m *modSet, cc *ssa.CallCommon) {
 	}
 }
 
-func (x *Exec) modOfFunc(m *modSet, callee *ssa.Function) {
+func (x *Exec) modOfFunc(m *modSet, callee *ssa.Function, args ...ssa.Value) {
 	key := funcKey(callee)
 	if gm, ok := libMods[key]; ok {
 		gm(x, m, callee)
@@ -1035,7 +1053,16 @@ func (x *Exec) modOfFunc(m *modSet, callee *ssa.Function) {
 		return
 	}
 	if x.w.contractOf(callee) != nil || x.inlinableStatic(callee) {
-		m.union(x.funcMods(callee), false)
+		cm := x.funcMods(callee)
+		m.union(cm, false)
+		// what the callee writes through its pointer parameters, seen from here
+		for k, elem := range cm.params {
+			if k < len(args) {
+				x.modOfAddr(m, args[k])
+			} else {
+				m.heaps[x.heapName(elem)] = true
+			}
+		}
 		// closures passed as arguments are called by the callee model (errgroup etc.) – handled in libMods
 		return
 	}
